@@ -3,9 +3,13 @@
 // check_cid_multiset_invariant, PeerInfo (C15: "neither result set contains the other (as multisets)").
 //
 // Trusted part of this file:
-//  * `to_count_map` stays external_body (it uses `HashMap::entry(..).or_default()`, outside Verus). Its assumed
-//    contract is "returns the multiset of its argument": for every key, the stored count (0 if absent) is the
-//    number of positions of the vector holding that CID text. THIS IS THE ONE ASSUMED LINK of C15's chain.
+//  * `to_count_map` is LIFTED and proved (loop invariant: the map holds the multiset of the prefix seen so far; the `+= 1`
+//    cannot overflow because a count never exceeds the number of positions seen). Two declared rewrites on it:
+//    `for cid in cids` -> `for cid in it: cids.iter()` (what `IntoIterator for &Vec` is defined as) and the std idiom
+//    `*count_map.entry(&**cid).or_default() += 1;` -> `entry_or_default_add1(&mut count_map, rc_str(cid));`, a trusted helper
+//    whose body IS that idiom and whose assumed contract is "the count under the key (0 if absent) goes up by one, all other
+//    keys keep theirs". So what is assumed shrank from "the function returns the multiset" to the meaning of one std call.
+//  * a str is determined by its characters (axiom_str_view_injective) and `&**cid` views as the Rc<str> does (rc_str).
 //  * `&str` obeys the hash-table key model (Hash/Eq of str are consistent) -- axiom_str_ref_obeys_key_model.
 //  * PublicKey / Signature / KeyError / DataVerifierError shims; `to_peer_id()` succeeds on validated keys
 //    (DataVerifier::new validates every key before any PeerInfo exists: the `expect("cannot happen ..")`).
@@ -75,11 +79,84 @@ pub open spec fn multi_included(smaller: Seq<Rc<CidRef>>, larger: Seq<Rc<CidRef>
     forall|k: &str| occurrences(larger, k) >= occurrences(smaller, k)
 }
 
-// ASSUMED: to_count_map returns the multiset of its argument
+// std idiom `*m.entry(k).or_default() += 1` (HashMap entry API, outside Verus): TRUSTED to mean "the count stored under k
+// (0 when absent) goes up by one, every other key keeps its count"; `+=` panics on overflow (overflow-checks = true), hence
+// the precondition, which the loop invariant of to_count_map discharges (count <= positions seen <= usize::MAX).
 #[verifier::external_body]
-fn to_count_map(cids: &Vec<Rc<CidRef>>) -> (r: HashMap<&str, usize>)
+fn entry_or_default_add1<'a>(m: &mut HashMap<&'a str, usize>, k: &'a str)
+    requires count_of(old(m)@, k) < usize::MAX
+    ensures final(m)@ == old(m)@.insert(k, (count_of(old(m)@, k) + 1) as usize)
+{ *m.entry(k).or_default() += 1; }
+
+// &**cid for cid: &Rc<str>
+#[verifier::external_body]
+pub uninterp spec fn rc_str_spec<'a>(cid: &'a Rc<CidRef>) -> &'a str;
+#[verifier::external_body]
+pub proof fn axiom_rc_str_spec(cid: &Rc<CidRef>)
+    ensures rc_str_spec(cid)@ == cid@
+{}
+#[verifier::external_body]
+fn rc_str<'a>(cid: &'a Rc<CidRef>) -> (r: &'a str)
+    ensures r == rc_str_spec(cid), r@ == cid@
+{ &**cid }
+
+// TRUSTED: a str is determined by its characters (Rust's Eq for str compares the bytes; this is the fact the key model of
+// `&str` rests on). The contract formerly assumed for to_count_map implied it.
+#[verifier::external_body]
+pub proof fn axiom_str_view_injective(a: &str, b: &str)
+    ensures a@ == b@ ==> a == b
+{}
+
+pub proof fn lemma_occurrences_push(s: Seq<Rc<CidRef>>, c: Rc<CidRef>, k: &str)
+    ensures occurrences(s.push(c), k) == occurrences(s, k) + if c@ == k@ { 1nat } else { 0nat }
+{
+    assert(s.push(c).drop_last() =~= s);
+}
+pub proof fn lemma_occurrences_bound(s: Seq<Rc<CidRef>>, k: &str)
+    ensures occurrences(s, k) <= s.len()
+    decreases s.len()
+{
+    if s.len() > 0 { lemma_occurrences_bound(s.drop_last(), k); }
+}
+
+//@ lift crates/air-lib/interpreter-data/src/interpreter_data/verification.rs :: fn to_count_map
+//@ props C15
+//@ ret r
+//@ rewrite 1 "for cid in cids" => "for cid in it: cids.iter()"
+//@ rewrite 1 "*count_map.entry(&**cid).or_default() += 1;" => "entry_or_default_add1(&mut count_map, rc_str(cid));"
+//@ spec
+    // C15: the count map IS the multiset of the vector (the link between the property's "as multisets" and is_multisubset)
     ensures forall|k: &str| count_of(r@, k) == occurrences(cids@, k)
-{ unimplemented!() }
+//@ after "count_map.entry"
+        proof {
+            let ghost seen = cids@.take(it.index() as int);
+            assert forall|k: &str| count_of(count_map@, k) == occurrences(seen.push(*cid), k) by {
+                if k == key { assert(count_of(old_map, k) == occurrences(seen, k)); }
+                else { assert(k@ != (*cid)@); assert(count_of(old_map, k) == occurrences(seen, k)); }
+            }
+        }
+//@ before #2 "count_map"
+    proof { assert(cids@.take(cids@.len() as int) =~= cids@); }
+//@ loop 0
+        invariant
+            it.seq().len() == cids@.len(),
+            forall|i: int| 0 <= i < cids@.len() ==> *it.seq()[i] == cids@[i],
+            forall|k: &str| count_of(count_map@, k) == occurrences(cids@.take(it.index() as int), k),
+//@ before "count_map.entry"
+        let ghost old_map = count_map@;
+        let ghost key = rc_str_spec(cid);
+        proof {
+            let ghost seen = cids@.take(it.index() as int);
+            assert(cids@.take(it.index() as int + 1) =~= seen.push(*cid));
+            assert forall|k: &str| #[trigger] occurrences(seen.push(*cid), k) == occurrences(seen, k) + if (*cid)@ == k@ { 1nat } else { 0nat } by {
+                lemma_occurrences_push(seen, *cid, k);
+            }
+            assert(cids.len() <= usize::MAX);
+            assert forall|k: &str| #[trigger] occurrences(seen, k) < usize::MAX by { lemma_occurrences_bound(seen, k); }
+            axiom_rc_str_spec(cid);
+            assert forall|k: &str| k@ == (*cid)@ implies k == rc_str_spec(cid) by { axiom_str_view_injective(k, rc_str_spec(cid)); }
+        }
+//@ end
 
 //@ lift crates/air-lib/interpreter-data/src/interpreter_data/verification.rs :: fn is_multisubset
 //@ props C15
